@@ -60,6 +60,9 @@ func (x *Exec) summarize(fn *ssa.Function) *optSummary {
 		cell := sub.fresh(st, fmt.Sprintf("sum!cell%d", i), SInt)
 		st.assume(Gt(cell, IntT(0)))
 		ph := sub.symValue(st, fmt.Sprintf("ph!%d", i), et, false)
+		if ph.K == VSlice {
+			ph.Off = sub.fresh(st, fmt.Sprintf("ph!%d!off", i), SInt)
+		}
 		if isStructVal(et) {
 			sum.Bad = "struct-typed captured variable"
 			return sum
@@ -108,6 +111,9 @@ func letWrap(t Term, holders []Term, actual []Term) Term {
 	var b strings.Builder
 	b.WriteString("(let (")
 	for i, h := range holders {
+		if _, lit := litInt(h); lit || isStrLit(h) || strings.HasPrefix(h.S, "(") || h.S == "true" || h.S == "false" {
+			continue
+		}
 		if strings.Contains(t.S, h.S) {
 			used = true
 		}
